@@ -391,6 +391,22 @@ ForeignFinalizeBogus(sl) ==
      /\ AdvCount < MaxAdv
      /\ Upd(s2, HvAfterFinalize(st, s2, hv, "w1", sl, FALSE), AdvMark,
             [ev |-> "finalize", w |-> "w1", sl |-> sl, stage |-> "S1", rep |-> 0, foreign |-> TRUE, tamper |-> "bogus"])
+\* a genuine reply with the counter-party's partial signature removed (it carries the transaction body, so it gets
+\* as far as the signature checks): refused, and a refusal leaves the pending transaction - its private context
+\* included - alone
+ForeignFinalizeNoSig(sl) ==
+  /\ sl \in DOMAIN st.w["w1"].ctxs
+  /\ \E m \in net : m.sl = sl /\ m.stage = "S2"
+  /\ AdvCount < MaxAdv
+  /\ LET m == CHOOSE m \in net : m.sl = sl /\ m.stage = "S2"
+         cx == st.w["w1"].ctxs[sl]
+         sel == Select(st, "w1", cx.acct, cx.amt, Height(st), 1, 1)
+         r == Finalize(st, "w1", [sl |-> sl, stage |-> "S2", rep |-> m.rep, rkern |-> "rpart", ttl |-> m.ttl, valid |-> FALSE, proofok |-> TRUE,
+                                  hasproof |-> FALSE, rout |-> {m.rout}, lsel |-> sel.sel, lchg |-> ChgSeq(sel)])
+         s2 == LastOr(r.steps, st) IN
+     /\ cx.late.on => (sel.ok /\ sel.fee = cx.fee)
+     /\ Upd(s2, HvAfterFinalize(st, s2, hv, "w1", sl, FALSE), AdvMark,
+            [ev |-> "finalize", w |-> "w1", sl |-> sl, stage |-> "S2", rep |-> m.rep, foreign |-> TRUE, tamper |-> "nosig"])
 \* the same bogus reply claiming a cut-off height that has long passed: refused as expired,
 \* and a refusal must leave the pending transaction (its private context included) alone
 ForeignFinalizeExpired(sl) ==
@@ -450,7 +466,7 @@ Next ==
   \/ \E w \in WS \cap Acting : \E t \in DOMAIN st.w[w].txs :
         st.w[w].txs[t].acct = st.w[w].active /\ CancelAct(w, st.w[w].txs[t].id, "")
   \/ UseCancelBySlate /\ \E w \in WS \cap Acting, sl \in Slates : CancelAct(w, -1, sl)
-  \/ UseAdv /\ \E sl \in Slates : ForeignFinalizeBogus(sl) \/ ForeignReceiveOwn(sl) \/ ForeignFinalizeExpired(sl)
+  \/ UseAdv /\ \E sl \in Slates : ForeignFinalizeBogus(sl) \/ ForeignReceiveOwn(sl) \/ ForeignFinalizeExpired(sl) \/ ForeignFinalizeNoSig(sl)
   \/ UseAdv /\ \E k \in DOMAIN st.w["w1"].outs : ForeignCoinbaseKey(k)
   \/ UseAdv /\ \E sl \in Slates, dest \in {"", "acct1"} : ForeignReceiveBad(sl, dest)
   \/ UseBuild /\ (BuildOutputAct \/ \E k \in DOMAIN st.w["w1"].outs, lock \in BOOLEAN : MwixReqAct(k, lock))
